@@ -113,8 +113,8 @@ CHECKS = {
              'exhaustive). Trace_Eval.tla (EvalMonitor): audit-event traces of the real minify() on every enumerated string in nine contexts (with '
              'payloads that would import a canary), on folding attacks, the shape bank and the corpus: each exec must directly follow compilation '
              'of a closed literal expression and be closed bytecode; no import/open/spawn/socket event may mention a canary. FoldGate.tla: which expression trees the '
-             'constant folder may evaluate at all (S: closed literal arithmetic; M: the operand gate of visit_BinOp; 107 380 shapes, TLC exhaustive); every shape '
-             '(quick: 20 000) is minified under the monitor and Trace_FoldGate.tla rejects an eval where S allows none.',
+             'constant folder may evaluate at all (S: closed literal arithmetic; M: the operand gate of visit_BinOp, and the second evaluation - of the printed text of the computed value - per value class; 129 805 shapes over 13 leaf kinds including 1e999 / 2j / 1e999j, TLC exhaustive); every shape '
+             '(quick: 20 000) is minified under the monitor and Trace_FoldGate.tla rejects an eval where S allows none. Attack strings: quote run + payload + quote run, lone surrogates, and backslash run + quote + quote-free code + `#`.',
         note='Relies on sys.addaudithook completeness (CPython 3.12 only); loads of the minifier\'s own modules are exempt; attribution by canary names.',
         technique='TLA+ (TLC) exhaustive check of the quoting rules against a literal lexer + trace validation of audit-event traces',
         design_ref='3.5, 5 (C12)'),
@@ -123,7 +123,7 @@ CHECKS = {
         text='S = the name-resolution rules of Python rules over abstract scope trees (module/function/class/comprehension/lambda x load/store/global/nonlocal/param/'
              'walrus); M = the mapper, binder, resolver, pin rules and name assigner with any processing order and rename/decline choice. TLC '
              'checks that every renamed program keeps the binding partition, home scopes, class fallbacks and compilability (all option combinations; '
-             'thorough adds two names). Every enumerated program (quick ~15 600 + 4 500 four-deep chains of scopes, thorough ~300 000 + all 70 112 chains) is concretised with unique tags, minified by the real '
+             'thorough adds two names). Every enumerated program (quick ~15 600 + 4 500 four-deep chains of scopes, thorough ~47 000 + 20 000 chains) is concretised with unique tags, minified by the real '
              'code under three option sets, the spelling of every occurrence is read back (a share also with adversarial names, heavier mention counts, stores spelled as annotated assignment / for / with / tuple / import - also one suite down - and mentions that '
              'bind nothing or are evaluated elsewhere: value-less module-level annotations, del of a declared global, reads in *args / **kwargs annotations; the programs that exist on '
              'Python 2 are also minified under 2.7), TLC re-evaluates the rules of Python on input and output, and '
@@ -146,7 +146,7 @@ CHECKS = {
         text='Frozen (renamer model) and the gating of name-introducing stages (pipeline model) checked by TLC; the real code is run on every enumerated '
              'scope program with a module-level trigger, on enumerated programs and four-deep scope chains whose own name is spelled eval / exec / locals / globals / vars (tainted iff '
              'PyScope.tla resolves a read of it to the builtin) with a renamable name in every function (also in other store spellings and with a value-less module-level annotation of the name), and on 7 triggers + 4 look-alikes x 15 syntactic positions x naming-option combinations x preserve lists, star '
-             'imports and the 2.7 exec statement: identifier multiset, stage events and naming flags (outside seams), and a run that enumerates namespaces '
+             'imports and the 2.7 exec statement (bare, `in` one / two namespaces, tuple spelling): identifier multiset, stage events and naming flags (outside seams), and a run that enumerates namespaces '
              'and looks names up by string, all judged by TLC.',
         note='Look-alikes are unconstrained; identifier multiset covers names, args, def/class names, global/nonlocal, import and except names.',
         technique='TLA+ (TLC) model checking + trace validation of stage events and observed identifier sets',
@@ -163,7 +163,7 @@ CHECKS = {
         design_ref='3.2, 5 (C10)'),
     'C05': dict(
         specs='SuiteS.tla, Suite.tla, Trace_Suite.tla, Trace_SuiteCorpus.tla',
-        text='S = one rewrite step per documented option with its side condition over a 43-symbol statement alphabet in 24 contexts (Allowed = closure, non-empty '
+        text='S = one rewrite step per documented option with its side condition over a 45-symbol statement alphabet in 24 contexts (Allowed = closure, non-empty '
              'rule); M = the nine transformers as written, in pipeline order. TLC checks MOut in Allowed, off-means-untouched, non-emptiness and import order '
              'for all blocks <= 2 (quick) / <= 3 (thorough) x relevant option subsets. Every enumerated case (quick ~16 000, thorough ~320 000; "uses __doc__" in five spellings; docstrings of functions and classes and the module-level zq are part of the observation) is concretised, '
              'minified by the real code with exactly those options, the output suite is classified back into the alphabet and TLC checks membership in '
@@ -179,7 +179,7 @@ CHECKS = {
              'deepest-common-function-namespace placement. TLC checks M |= S for every set of <= 4 (quick) / 5 (thorough) places x 4 literal kinds. Every case '
              '(x 3 option sets; True also spelled as an expression that folding turns into it) is concretised and minified by the real code; TLC judges which places were replaced, the scope / count / position / '
              'value of every alias assignment, docstring and __future__ positions, compilation and a run of both programs. A typed-literal family (two spellings of equal text and '
-             'another type, e.g. \'x\' / u\'x\' on 2.7) is minified and run under 2.7 and 3.x and judged by Trace_Behave.tla.',
+             'another type, e.g. \'x\' / u\'x\' on 2.7; at module level, in a function, and in documented bodies - docstrings and a future statement in front) is minified and run under 2.7 and 3.x and judged by Trace_Behave.tla.',
         note='Fixed skeleton (one program shape, all placements); alias assignments recognised structurally; known finding D18 (PEP 709) matched by its version '
              'signature (correct on 3.11, NameError on 3.12).',
         technique='TLA+ (TLC) check of hoist placement against scoping rules + replay of every enumerated placement into the real minifier',
@@ -200,7 +200,7 @@ CHECKS = {
              'assignment. TLC shows the model exact at module level / one-line bodies and reproduces the indentation under-estimate (D15) and the uncounted blank next to a keyword (D30) for every decision in '
              'bounds. On pinned real modules TLC judges every logged should_rename decision against the cost comparison, and for each of 11 size options and 2 '
              'bases that the output with the option on is no longer than with it off; the same for synthetic modules (a literal repeated 2..20 times; a literal at 3 / 8 '
-             'sites of each of 27 syntactic kinds at module level / in a function / in a method).',
+             'sites of each of 27 syntactic kinds at module level / in a function / in a method), whose size pairs are also taken on the other interpreters that run the minifier (quick: 2.7 and 3.8).',
         note='The property is a corpus observation ("real-world modules" = the pinned corpus); decisions are logged by wrapping should_rename from outside.',
         technique='TLA+ (TLC) check of the cost model + trace validation of logged rename decisions and measured output sizes',
         design_ref='3.2, 5 (C17)'),
